@@ -234,5 +234,5 @@ Proof.
     unfold s_pos in H2; simpl in H2.
     destruct rev as [[ro re]|].
     + destruct (negb (re =? 0)); inversion H1; inversion H2; subst; rewrite HE in H |- *; auto.
-    + inversion H1; inversion H2; subst; rewrite HE; auto.
+    + inversion H1; inversion H2; subst; rewrite HE in H |- *; auto.
 Qed.
